@@ -30,6 +30,8 @@ if [ $r -ne 0 ]; then
     okt=1
     for k in 1 2 3; do
       if unshare -rn sh -c "ip link set lo up; go test -vet=off -count=1 -run '^$t\$' ./..." > /tmp/$$.re 2>&1; then okt=0; break; fi
+      # some tests need what the private namespace lacks (IPv6 loopback): try in the host namespace too
+      if go test -vet=off -count=1 -run "^$t\$" ./... > /tmp/$$.re 2>&1; then okt=0; break; fi
     done
     echo "   re-run $t: $([ $okt -eq 0 ] && echo passes-on-retry || echo STILL-FAILS)"
     [ $okt -ne 0 ] && r=1
